@@ -138,14 +138,6 @@ if not c.quick:
     runs['sampler_2merges'] = dict(states=r2.distinct, transitions=r2.generated, wall=round(r2.wall, 1), constants=two)
     states += r2.distinct
     transitions += r2.generated
-    # the time-window rule of the implementation satisfies the same invariants under the assumption
-    cod = dict(main, coded=True, kinds=('hot', 'finalize'), frontiers=(3,))
-    r3 = tlc.run('TraceSampling.tla', 'cg.cfg', tag='c13cg', files={'cg.cfg': cfg(**cod)}, timeout=3000, workers=W)
-    if r3.violated or r3.error or r3.timed_out:
-        c.inconclusive('TLC on TraceSampling.tla (coded guard): violated=%s error=%s timeout=%s\n%s' % (r3.violated, r3.error, r3.timed_out, r3.output[-1500:]))
-    runs['coded_guard_under_gap'] = dict(states=r3.distinct, transitions=r3.generated, wall=round(r3.wall, 1), constants=cod)
-    states += r3.distinct
-    transitions += r3.generated
 
 # ---- 2. behaviours: edge cover of a small graph (history variable kept: every edge carries its `last`) --------
 gc = dict(traces=('a', 'b'), parts=3, batch=1, times=(2, 4), kinds=('hot',), frontiers=(2,), decisions=('Keep', 'Drop', 'Error'),
